@@ -569,9 +569,35 @@ impl FunctionCompiler<'_> {
                 let dest_ty = &self.tys[self.loc][assign_body.dest];
 
                 if let Some(op) = assign_body.quick_assign_op {
-                    let res = self.compile_binary(assign_body.dest, assign_body.value, op);
-
                     assert!(!dest_ty.is_aggregate());
+
+                    // the destination has already been evaluated (to its address) above.
+                    // its current value is loaded from there: evaluating the destination a
+                    // second time would repeat its side effects (`arr[next()] += 1`)
+                    let value_ty = self.tys[self.loc][assign_body.value];
+                    let max_ty: Intern<Ty> = dest_ty
+                        .max(&value_ty)
+                        .expect("hir_ty would've caught this")
+                        .into();
+
+                    let res = match dest_ty.get_final_ty().into_real_type() {
+                        Some(real_ty) => {
+                            let current = dest.into_value(&mut self.builder, self.ptr_ty);
+                            let current =
+                                self.builder
+                                    .ins()
+                                    .load(real_ty, MemFlags::trusted(), current, 0);
+                            let lhs = self
+                                .cast(Some(current), *dest_ty, max_ty)
+                                .expect("a number stays a number");
+                            let rhs = self
+                                .compile_and_cast(assign_body.value, max_ty)
+                                .expect("hir_ty would've caught this");
+
+                            Some(self.compile_complex_compare(lhs, rhs, max_ty, op))
+                        }
+                        None => self.compile_binary(assign_body.dest, assign_body.value, op),
+                    };
 
                     dest.write_all(res, *dest_ty, self.module, &mut self.builder);
                 } else if matches!(
